@@ -165,16 +165,16 @@ pub fn profile(name: &str) -> Profile {
                 (K::New, 8), (K::DropRc, 3), (K::Store, 6), (K::Load, 8), (K::Downgrade, 10), (K::WeakClone, 3),
                 (K::WeakDrop, 3), (K::WeakSnap, 8), (K::SnapDowngrade, 10), (K::WStore, 10), (K::WSwap, 10),
                 (K::WCas, 16), (K::WCasTag, 8), (K::WLoad, 14), (K::WithTag, 5), (K::Pin, 3), (K::Unpin, 3),
-                (K::Churn, 10), (K::WsCounted, 4), (K::Deref, 3), (K::Swap, 3), (K::Restamp, 6),
+                (K::Churn, 10), (K::WsCounted, 4), (K::Deref, 3), (K::Swap, 3), (K::Restamp, 8), (K::WRestamp, 14),
             ]);
             p.record_wcells = true;
-            p.nroots = 2;
+            p.nroots = 1;
             p.nwroots = 2;
             p.ops = (4, 12);
             p.tags = true;
             p.prefill = 12;
             p.stall_sites = vec![
-                S::AW_LOAD, S::AW_STORE_SWAP, S::AW_STORE_DEC, S::AW_SWAP, S::AW_CAS, S::AW_CAS, S::AW_CAS_TAG, S::DECW_SUB,
+                S::AW_LOAD, S::AW_STORE_SWAP, S::AW_STORE_DEC, S::AW_SWAP, S::AW_CAS, S::AW_CAS, S::AW_CAS, S::AW_CAS, S::AW_CAS_TAG, S::DECW_SUB,
             ];
         }
         "c02f" | "c01f" | "c05f" | "c03f" => {
